@@ -511,6 +511,9 @@ fn child_main(args: &[String]) -> i32 {
 struct SysOut {
 	cases: u64,
 	killed: u64,
+	/// write-error cases, and those in which the operation noticed the failed write (returned an error or panicked)
+	write_error_cases: u64,
+	write_error_noticed: u64,
 	problems: Vec<(String, String, Value)>,
 	calls_per_scenario: BTreeMap<String, u64>,
 }
@@ -543,16 +546,22 @@ fn run_child_mode(so: &str, scen: &str, dir: &str, k: u64, short: bool, fail: Op
 		Some(l) => {
 			c.env("GWV_CP_LOG", l);
 		}
-		None => {
-			c.env_remove("GWV_CP_LOG");
-		}
+		None => match std::env::var("GWV_C06_LOG") {
+			// development aid for replays: list the file calls of the replayed child
+			Ok(l) => {
+				c.env("GWV_CP_LOG", l);
+			}
+			Err(_) => {
+				c.env_remove("GWV_CP_LOG");
+			}
+		},
 	}
 	c.status().ok().and_then(|s| s.code())
 }
 
 fn syscall_sweep(root: &str, base: &Snapshot, references: &BTreeMap<String, u64>) -> Result<SysOut, String> {
 	let so = crate::props::c12::build_shim(root)?;
-	let mut out = SysOut { cases: 0, killed: 0, problems: vec![], calls_per_scenario: BTreeMap::new() };
+	let mut out = SysOut { cases: 0, killed: 0, write_error_cases: 0, write_error_noticed: 0, problems: vec![], calls_per_scenario: BTreeMap::new() };
 	// prepared snapshots + syscall counts per scenario
 	let mut jobs: Vec<(String, Snapshot, u64, bool, Option<&'static str>)> = vec![];
 	for scen in SCENARIOS.iter() {
@@ -565,6 +574,10 @@ fn syscall_sweep(root: &str, base: &Snapshot, references: &BTreeMap<String, u64>
 		let snap = Snapshot::capture(&dir);
 		let log = format!("{}/c06-sys.log", root);
 		let _ = std::fs::remove_file(&log);
+		// the counting run starts from a freshly restored copy, like every case below (a snapshot carries no
+		// LMDB lock files: a directory that has been opened before makes fewer file calls on the next open)
+		let dir = format!("{}/c06-sys-count", root);
+		snap.restore(&dir);
 		let code = run_child(&so, scen, &dir, 0, false, Some(&log));
 		if code != Some(0) {
 			return Err(format!("clean child run of scenario {} exited with {:?}", scen, code));
@@ -621,11 +634,20 @@ fn syscall_sweep(root: &str, base: &Snapshot, references: &BTreeMap<String, u64>
 			}
 		};
 		let _ = std::fs::remove_dir_all(&dir);
+		let killed = if fail.is_some() { code == Some(3) || code == Some(4) } else { killed };
+		if std::env::var("GWV_C06_DEBUG").is_ok() && fail.is_some() {
+			eprintln!("write-error case {} k={} {:?}: exit {:?}, problems {:?}", scen, k, fail, code, problems.iter().map(|p| &p.0).collect::<Vec<_>>());
+		}
 		(killed, problems, spendable)
 	});
 	for ((scen, _, k, short, fail), (killed, problems, spendable)) in jobs.iter().zip(results.into_iter()) {
 		out.cases += 1;
-		if killed {
+		if fail.is_some() {
+			out.write_error_cases += 1;
+			if killed {
+				out.write_error_noticed += 1;
+			}
+		} else if killed {
 			out.killed += 1;
 		}
 		let mut ps = problems;
@@ -666,6 +688,9 @@ pub fn replay(payload: &Value) -> i32 {
 		let prep = prepare(&w, &scen);
 		w.meta.extra["c06_prep"] = prep;
 		w.close();
+		let snap = Snapshot::capture(&dir);
+		let dir = format!("{}/c06-replay-sys-run", root);
+		snap.restore(&dir);
 		let code = run_child_mode(&so, &scen, &dir, k, payload["short"].as_bool().unwrap_or(false), payload["fail"].as_str(), None);
 		let mut problems = vec![];
 		let dir_ids = context_ids(&dir);
@@ -779,7 +804,10 @@ pub fn run(args: &[String]) -> i32 {
 			Ok(o) => {
 				sys_cases = o.cases;
 				fired += o.killed;
-				rep.cov("syscall_kill_points", json!({"cases": o.cases, "killed": o.killed, "file_calls_per_scenario": o.calls_per_scenario}));
+				rep.cov("syscall_kill_points", json!({"cases": o.cases, "killed": o.killed, "write_error_cases": o.write_error_cases, "write_errors_noticed_by_the_operation": o.write_error_noticed, "file_calls_per_scenario": o.calls_per_scenario}));
+				if o.write_error_noticed < 20 {
+					return rep.finish(Some(format!("write-error sweep: only {} of {} injected write errors were noticed by the operation", o.write_error_noticed, o.write_error_cases)));
+				}
 				for (k, w, payload) in o.problems {
 					rep.add_finding(Finding { key: format!("C06/{}", k), what: w, replay: payload });
 				}
